@@ -120,3 +120,74 @@ def swap_lr(s):
     s = s.replace("_first", "\0").replace("_last", "_first").replace("\0", "_last")
     s = s.replace("split_first", "\0").replace("split_last", "split_first").replace("\0", "split_last")
     return s
+
+
+# --------------------------------------------------------------------------------------------------
+# VIEWCMP1: sibling agreement of the contiguity tests of the two-slice view functions
+# --------------------------------------------------------------------------------------------------
+
+VIEW_GROUPS = [
+    ["CircularBuffer::as_slices", "CircularBuffer::as_mut_slices", "CircularBuffer::make_contiguous"],
+    ["Drain::as_slices", "Drain::as_mut_slices"],
+    ["CircularBuffer::drop_range"],
+]
+
+
+def _is_pos(e):
+    for s in mir.walk(e):
+        if isinstance(s, tuple) and s:
+            if s[0] == "load" and s[2] and s[2][-1] == "start":
+                return True
+            if s[0] == "call" and s[1] in ("add_mod", "sub_mod"):
+                return True
+            if s[0] == "param" and False:
+                return True
+    return False
+
+
+def contiguity_guards(f):
+    """[(block, op, canon_a, canon_b, b_is_add_mod)] for switches comparing two positions"""
+    out = []
+    for b in sorted(f.reachable(False)):
+        t = f.term(b)
+        if t["k"] != "switch" or f._switch_const(t, b) is not None:
+            continue
+        n = len(f.blocks[b]["stmts"])
+        d = mir.strip_casts(f.deep_simplify(f.operand_expr(t["discr"], b, n)))
+        if isinstance(d, tuple) and d[0] == "binop" and d[1] in ("Lt", "Le", "Gt", "Ge", "Eq", "Ne"):
+            a, c = mir.strip_casts(d[2]), mir.strip_casts(d[3])
+            if _is_pos(a) and _is_pos(c):
+                pn = lambda n_: f.local_name(n_)
+                ca = skeleton.canon(a, lambda s: s, 1, None, pn)
+                cc = skeleton.canon(c, lambda s: s, 1, None, pn)
+                out.append((b, d[1], ca, cc, isinstance(c, tuple) and c[0] == "call" and c[1] == "add_mod"))
+    return out
+
+
+def viewcmp1(ctx, prog, cfg, rule="VIEWCMP1", groups=None):
+    for grp in (groups or VIEW_GROUPS):
+        sigs = {}
+        for short in grp:
+            f = prog.fn(short)
+            if f is None or not f.has_mir:
+                ctx.violate(rule, short, "anchor-missing", "?", "view function not found", cfg)
+                continue
+            gs = contiguity_guards(f)
+            ok = len(gs) == 1 and gs[0][1] == "Lt" and gs[0][4]
+            ctx.check(ok, rule, short, "contiguity test is `lower < upper`", short_loc(f, gs[0][0]) if gs else f.loc,
+                      "the test that decides between one contiguous slice and a wrapped pair is %s; every sibling view uses the "
+                      "strict `lower_position < add_mod(start, upper, N)` (equality means the range wraps around the whole array)"
+                      % (["%s(%s, %s)" % (g[1], g[2], g[3]) for g in gs] or "missing"),
+                      "Lt(%s, %s)" % (gs[0][2], gs[0][3]) if gs else "", cfg)
+            if gs:
+                nm = lambda s_: re.sub(r"\bmut ", "", s_).replace("NonNull::as_mut", "NonNull::as_ref")
+                sigs[short] = (gs[0][1], nm(gs[0][2]), nm(gs[0][3]))
+        if len(set(sigs.values())) > 1:
+            ref = grp[0]
+            for short, sg in sigs.items():
+                if sg != sigs.get(ref):
+                    ctx.violate(rule, short, "contiguity test differs from sibling %s" % ref, prog.fns[short].loc,
+                                "`%s` decides contiguity with `%s(%s, %s)` while its sibling `%s` uses `%s(%s, %s)`: two views of the "
+                                "same contents disagree on where they wrap" % ((short,) + sg + (ref,) + sigs[ref]), cfg)
+        elif len(sigs) > 1:
+            ctx.ok(rule, grp[0], "siblings agree: %s" % ", ".join(grp), "identical contiguity test %s(%s, %s)" % next(iter(sigs.values())), cfg)
